@@ -327,3 +327,10 @@ Theorem C01_file_to_file : forall e o (inflate : list Z -> option (list Z)) byte
   spec_decode_png inflate out = Some pic.
 Proof. exact optimize_from_memory_lossless. Qed.
 Print Assumptions C01_file_to_file.
+
+(* the size margin in the alpha-reduction block of perform_reductions (Model/Reductions.s_alpha) is the literal of the current source *)
+From OxiVerif Require Import Proofs.SrcLiteralAlpha.
+From OxiVerif Require Gen.SrcConsts.
+Theorem C01_alpha_margin_literal_is_source : SrcConsts.src_alpha_trns_margin = 1000.
+Proof. exact alpha_trns_margin_is_source. Qed.
+Print Assumptions C01_alpha_margin_literal_is_source.
